@@ -153,7 +153,7 @@ impl Check for C01 {
         let mut lang_of: std::collections::BTreeMap<u8, String> = std::collections::BTreeMap::new();
         for (ei, ev) in trace.events.iter().enumerate() {
             let t = ev.clock.base();
-            if t != last_t { rep.count("clock.advance_between_ops"); }
+            if t > last_t { rep.count("clock.advance_between_ops"); } else if t < last_t { rep.count("clock.step_back_between_ops"); }
             last_t = t;
             match &ev.op {
                 Op::Admin(op) => {
